@@ -1,7 +1,8 @@
 (* Correspondence checker for C12: one API call (Region / Mesh / Field .rotate90, copying or in
-   place) per case.  Corners are compared in the tolerance form (Region.rotate90 evaluates
-   cos/sin(k*pi/2) in floating point): |a-b| <= (1+|k|) * 1e-13 * scale, where scale is the largest
-   coordinate magnitude among corners and reference.  Field values (the component rotation uses the
+   place) per case.  Region.rotate90 uses the exact quarter-turn table of k mod 4, so in the exact
+   regime (dyadic / integer corners and reference: every intermediate is representable) corners are
+   compared by equality; in the scale regime (decimal fractions) within 1e-13 * scale (rounding of
+   p - R and R + ...), where scale is the largest coordinate magnitude among corners and reference.  Field values (the component rotation uses the
    exact quarter-turn pair), validity, cell counts, units, dims, labels, mapping and accept/reject
    are compared exactly. *)
 From Coq Require Import Qcanon.
@@ -18,17 +19,17 @@ Definition omesh := (oregion * list Z * list sub_t)%type.
 Definition ofield := (omesh * list Q * list bool * list string * list (string * string))%type.
 
 Inductive c12_case :=
-| CRegion (inplace : bool) (p1 p2 : list Q) (ds us : list string)
+| CRegion (exact inplace : bool) (p1 p2 : list Q) (ds us : list string)
           (a b : string) (k : Z) (ref : option (list Q)) (obs : option oregion)
-| CMesh (inplace : bool) (p1 p2 : list Q) (ds us : list string) (ns : list Z) (sbs : list sub_t)
+| CMesh (exact inplace : bool) (p1 p2 : list Q) (ds us : list string) (ns : list Z) (sbs : list sub_t)
         (a b : string) (k : Z) (ref : option (list Q)) (obs : option omesh)
-| CField (inplace : bool) (p1 p2 : list Q) (ds us : list string) (ns : list Z) (sbs : list sub_t)
+| CField (exact inplace : bool) (p1 p2 : list Q) (ds us : list string) (ns : list Z) (sbs : list sub_t)
          (nv : nat) (vals : list Q) (valid : list bool) (vds : list string) (vm : list (string * string))
          (a b : string) (k : Z) (ref : option (list Q)) (obs : option ofield).
 
 Definition tf_default : Q := 1 # 1000000000000.
 
-Definition tol (k : Z) : Q := inject_Z (1 + Z.abs k) * (1 # 10000000000000).
+Definition tol (exact : bool) : Q := if exact then 0 else (1 # 10000000000000).
 
 Definition qmaxabs (l : list Q) : Q := fold_right (fun x m => Qmax (Qabs x) m) 0 l.
 
@@ -66,20 +67,20 @@ Definition pairlist_eqb (l1 l2 : list (string * string)) : bool :=
 
 Definition check_C12 (c : c12_case) : bool :=
   match c with
-  | CRegion ip p1 p2 ds us a b k ref obs =>
+  | CRegion ex ip p1 p2 ds us a b k ref obs =>
       match region_rotate90 ip (mk_reg p1 p2 ds us) a b k ref, obs with
-      | OK r, Some o => region_close (tol k) (geom_scale p1 p2 ref) r o
+      | OK r, Some o => region_close (tol ex) (geom_scale p1 p2 ref) r o
       | Err _, None => true
       | _, _ => false
       end
-  | CMesh ip p1 p2 ds us ns sbs a b k ref obs =>
+  | CMesh ex ip p1 p2 ds us ns sbs a b k ref obs =>
       let m := mkMesh (mk_reg p1 p2 ds us) ns "" (mk_subs ds us sbs) in
       match mesh_rotate90 ip m a b k ref, obs with
-      | OK m', Some o => mesh_close (tol k) (geom_scale p1 p2 ref) m' o
+      | OK m', Some o => mesh_close (tol ex) (geom_scale p1 p2 ref) m' o
       | Err _, None => true
       | _, _ => false
       end
-  | CField ip p1 p2 ds us ns sbs nv vals valid vds vm a b k ref obs =>
+  | CField ex ip p1 p2 ds us ns sbs nv vals valid vds vm a b k ref obs =>
       let m := mkMesh (mk_reg p1 p2 ds us) ns "" (mk_subs ds us sbs) in
       let sh := znat ns in
       let f := mkField m nv (of_list (f0 QcOps) (sh ++ [nv]) (qcl vals)) (of_list true sh valid) vds vm in
@@ -87,7 +88,7 @@ Definition check_C12 (c : c12_case) : bool :=
       match field_rotate90 QcOps ip f a b k ref, obs with
       | OK g, Some (om, ovals, ovalid, ovds, ovm) =>
           let sh' := fshape g in
-          mesh_close (tol k) (geom_scale p1 p2 ref) (fmesh g) om &&
+          mesh_close (tol ex) (geom_scale p1 p2 ref) (fmesh g) om &&
           qclist_eqb (to_list (sh' ++ [nv]) (fval g)) (qcl ovals) &&
           boollist_eqb (to_list sh' (fvalid g)) ovalid &&
           strlist_eqb (vdims g) ovds && pairlist_eqb (vmap g) ovm
